@@ -65,6 +65,7 @@ def run(idx: ProgramIndex, rep: Report, tier: str):
     rep.rule("C06-6", "x1 and x2 (rows and columns) are treated alike: the second input of every kernel evaluation / lazy re-construction is the twin of the first under the swap x1<->x2, row<->col")
     from .common_twin import twin_obligations
     twin_obligations(idx, rep, "C06-6", 30)
+    derivative_diag_layout(idx, rep)
 
 
 # ---- C06-1 ---------------------------------------------------------------------------------------------------------
@@ -490,3 +491,54 @@ def multi_output_guard(idx: ProgramIndex, rep: Report):
     rep.add("C06-5", inst, fi.where, ok_all and npaths > 0,
             "on all %d paths the divisibility test of every divided bound, the step test and the slice-type test are refuted before the slices are divided" % npaths if ok_all and npaths else
             "a path divides the row/column slices by num_outputs_per_input without the guards: %s" % "; ".join(sorted(set(missing))[:3]), {"paths": npaths, "divisions": ndiv})
+
+
+# ---- C06-7: diagonal of the derivative kernels: layout of the pieces vs. the interleaving permutation -------------------
+def derivative_diag_layout(idx: ProgramIndex, rep: Report):
+    """diag=True of a derivative kernel returns cat(value block, gradient blocks)[..., pi] with pi = arange(n(d+1)).view(d+1, n).t()
+    .reshape(-1): pi reads its source as component-major, point-minor.  Every flattened block that is concatenated must therefore
+    have the point axis as its minor axis ((n, d) blocks are transposed before being flattened); otherwise the diagonal pairs the
+    variance of one input dimension with another one (visible only for ARD lengthscales that differ)."""
+    from ..domains.flatlayout import layout, permutation_minor
+    from ..symbolic import inline, walk_paths
+    rep.rule("C06-7", "derivative kernels: the blocks concatenated into the diagonal are laid out point-minor, as the interleaving permutation assumes")
+    n = 0
+    K = kernel_cls(idx)
+    for cls in idx.subclasses(K):
+        if "keops" in cls.module.name or "grad" not in cls.module.name:
+            continue
+        fi = cls.methods.get("forward")
+        if fi is None:
+            continue
+        seen = set()
+        for path, seq in walk_paths(fi):
+            for st, env in seq:
+                if not isinstance(st, ast.stmt):
+                    continue
+                for sub in (x for x in ast.walk(st) if isinstance(x, ast.Subscript)):
+                    # <cat(...)>[..., <permutation>]
+                    sl = sub.slice
+                    if not (isinstance(sl, ast.Tuple) and len(sl.elts) == 2 and isinstance(sl.elts[0], ast.Constant) and sl.elts[0].value is Ellipsis):
+                        continue
+                    perm = permutation_minor(inline(sl.elts[1], env))
+                    if perm is None:
+                        continue
+                    data = inline(sub.value, env)
+                    if not (isinstance(data, ast.Call) and chain(data.func) == "torch.cat"):
+                        continue  # the full matrix is permuted along rows/columns elsewhere; only concatenated diagonals here
+                    key = sub.lineno
+                    if key in seen:
+                        continue
+                    seen.add(key)
+                    lay = layout(data)
+                    inst = "%s:%s.forward[diagonal @%s]" % (cls.module.name, cls.qualname, " ".join(src(sub.value).split())[:30])
+                    where = "%s:%d" % (fi.module.relpath, sub.lineno)
+                    if lay is None or perm[1] is None:
+                        rep.observe("C06-7", inst, where, "layout of the concatenated diagonal not decided")
+                        continue
+                    n += 1
+                    ok = perm[0] == "transposed" and lay[0] == "flat" and lay[2] == perm[1]
+                    rep.add("C06-7", inst, where, ok,
+                            "all blocks are point-minor (%s), as the permutation (view(components, points).t()) assumes" % lay[2] if ok else
+                            "the concatenated blocks have minor axis %s, the permutation reads its source as point-minor (%s): a block of shape (n, d) was flattened without the transpose, so entries of different input dimensions are exchanged" % (lay[2] if lay[0] == "flat" else lay, perm[1]), {"layout": str(lay)})
+    rep.floor("C06-7", "permuted diagonals of derivative kernels", n, 3)
